@@ -577,7 +577,8 @@ class SArr:
                     nn = lift(n)
                     if bool(sc.Or(v < -nn, v >= nn)):
                         raise IndexError('index out of bounds (symbolic) for axis %d at %s' % (ax, _site()))
-                    v = ite(v < 0, v + nn, v)
+                    if ctx.feasible((v < 0).z):
+                        v = ite(v < 0, v + nn, v)
                 plan.append(('int', v))
             ax += 1
 
